@@ -25,11 +25,16 @@ def build(c):
     args = []
     if c["env"] != "-":
         env[env_name] = vals[c["env"]]
+    pco = []
     if c["pre"] != "-":
         if opt and c["setting"] not in ("stack", "inikey"):
-            env["PIKA_COMMANDLINE_OPTIONS"] = "%s=%s" % (opt, vals[c["pre"]])
+            pco.append("%s=%s" % (opt, vals[c["pre"]]))
         else:
-            env["PIKA_COMMANDLINE_OPTIONS"] = "--pika:ini=%s=%s" % (key, vals[c["pre"]])
+            pco.append("--pika:ini=%s=%s" % (key, vals[c["pre"]]))
+    if c.get("pini", "-") != "-":
+        pco.append("--pika:ini=%s=%s" % (key, vals[c["pini"]]))
+    if pco:
+        env["PIKA_COMMANDLINE_OPTIONS"] = " ".join(pco)
     if c["ini"] != "-":
         args.append("--pika:ini=%s=%s" % (key, vals[c["ini"]]))
     if c["cmd"] != "-":
@@ -89,7 +94,7 @@ def run():
     if not chk.thorough():
         rng = __import__("random").Random(chk.seed)
         rng.shuffle(cases)
-        cases = cases[:600]
+        cases = cases[:900]
 
     def one(c):
         env, args = build(c)
@@ -104,7 +109,7 @@ def run():
         rec["e"] = "case"
         rec["out"] = dict(error=v is None, value=v or "none")
         recs.append((rec, c, d))
-        chk.add_case(c, nontrivial=sum(1 for k in ("env", "pre", "ini", "cmd") if c[k] != "-") >= 2)
+        chk.add_case(c, nontrivial=sum(1 for k in ("env", "pre", "pini", "ini", "cmd") if c[k] != "-") >= 2)
     # miscellaneous: unknown options and non-pika arguments
     misc = []
     base_env = {k: v for k, v in os.environ.items() if not k.startswith("PIKA_")}
